@@ -254,3 +254,1082 @@ where
         Ok(guarded(self.check, &c))
     }
 }
+
+// ======================================================================================
+// merged block from the c0306 work
+// ======================================================================================
+// Helpers for the LARGE-SCALE sub-checks (size ladders 255 .. 2^20).
+//
+// ======================================================================================
+// Block C03-C06 (suffix array / LCP / sampled SA, BWT / less / Occ, FM-index, FMD-index).
+// Everything of this block lives in `pub mod c0306`; nothing outside it.
+// ======================================================================================
+
+pub mod c0306 {
+    use crate::engine::{guarded, Failure, Pass, RunParams, Stop, SubCheck, SubStats, Tier, R, WATCH};
+    use serde::de::DeserializeOwned;
+    use serde::{Deserialize, Serialize};
+    use serde_json::{json, Value};
+    use std::collections::HashSet;
+    use std::fmt::Debug;
+    use std::time::Instant;
+
+    // -----------------------------------------------------------------------------------
+    // deterministic PRNG (splitmix64); the checks expand `{kind, n, seed}` with it
+
+    #[derive(Clone, Debug)]
+    pub struct Sm64(pub u64);
+
+    impl Sm64 {
+        pub fn new(seed: u64) -> Sm64 {
+            Sm64(seed)
+        }
+        pub fn next(&mut self) -> u64 {
+            self.0 = self.0.wrapping_add(0x9e3779b97f4a7c15);
+            let mut z = self.0;
+            z = (z ^ (z >> 30)).wrapping_mul(0xbf58476d1ce4e5b9);
+            z = (z ^ (z >> 27)).wrapping_mul(0x94d049bb133111eb);
+            z ^ (z >> 31)
+        }
+        /// uniform in 0..n (n >= 1)
+        pub fn below(&mut self, n: usize) -> usize {
+            ((self.next() as u128 * n as u128) >> 64) as usize
+        }
+    }
+
+    pub fn mix(a: u64, b: u64) -> u64 {
+        let mut s = Sm64(a ^ b.wrapping_mul(0x9e3779b97f4a7c15));
+        s.next()
+    }
+
+    // -----------------------------------------------------------------------------------
+    // the size ladder
+
+    /// (lo, hi) of every ladder group; a value v "reaches" a group when lo <= v <= hi
+    pub const GROUPS: [(usize, usize); 12] = [
+        (255, 257),
+        (511, 513),
+        (1023, 1025),
+        (4095, 4097),
+        (8191, 8193),
+        (16383, 16385),
+        (32767, 32769),
+        (65535, 65537),
+        (69000, 71000),
+        (131071, 131073),
+        (524287, 524289),
+        (1048575, 1048577),
+    ];
+
+    pub fn group_of(v: usize) -> Option<usize> {
+        GROUPS.iter().position(|&(lo, hi)| lo <= v && v <= hi)
+    }
+
+    /// every ladder value <= max: the three values around each power of two and 70 000
+    pub fn ladder(max: usize) -> Vec<usize> {
+        let mut v = Vec::new();
+        for (g, &(lo, hi)) in GROUPS.iter().enumerate() {
+            if g == 8 {
+                v.push(70_000);
+            } else {
+                v.extend(lo..=hi);
+            }
+        }
+        v.retain(|&x| x <= max);
+        v
+    }
+
+    /// class labels "<param> in 255..257" .. one per ladder group
+    #[macro_export]
+    macro_rules! c0306_ladder_labels {
+        ($p:literal) => {
+            [
+                concat!($p, " in 255..257"),
+                concat!($p, " in 511..513"),
+                concat!($p, " in 1023..1025"),
+                concat!($p, " in 4095..4097"),
+                concat!($p, " in 8191..8193"),
+                concat!($p, " in 16383..16385"),
+                concat!($p, " in 32767..32769"),
+                concat!($p, " in 65535..65537"),
+                concat!($p, " ~ 70000"),
+                concat!($p, " in 131071..131073"),
+                concat!($p, " in 2^19-1..2^19+1"),
+                concat!($p, " in 2^20-1..2^20+1"),
+            ]
+        };
+    }
+
+    pub fn add_group(pass: &mut Pass, labels: &[&'static str; 12], v: usize) {
+        if let Some(g) = group_of(v) {
+            pass.add(labels[g]);
+        }
+    }
+
+    // -----------------------------------------------------------------------------------
+    // texts as generator parameters
+
+    #[derive(Serialize, Deserialize, Debug, Clone, Copy, PartialEq, Eq)]
+    pub enum Kind {
+        /// uniform over sigma symbols
+        Random,
+        /// one symbol
+        Homo,
+        /// a random unit of this length (first two symbols different when sigma >= 2), repeated
+        Period(u32),
+        /// sigma equal-length runs, symbols ascending / descending
+        Asc,
+        Desc,
+        /// Fibonacci / Thue-Morse word over the first two symbols
+        Fib,
+        Thue,
+        /// X c X with X random: longest repeat = |X|
+        Repeat2,
+    }
+
+    /// where the INTERIOR sentinel occurrences are (the text always ends in one more)
+    #[derive(Serialize, Deserialize, Debug, Clone, Copy, PartialEq, Eq)]
+    pub enum Sent {
+        Single,
+        /// this many, evenly spread
+        Even(usize),
+        /// this many, at random places
+        Random(usize),
+        /// this many, directly before the final one
+        Tail(usize),
+        /// this many, at the start of the text
+        Head(usize),
+        /// one after every `step - 1` body symbols (with Kind::Period(step-1): identical reads)
+        Every(usize),
+    }
+
+    #[derive(Serialize, Deserialize, Debug, Clone, PartialEq, Eq)]
+    pub struct TextSpec {
+        pub kind: Kind,
+        /// total text length including all sentinel occurrences
+        pub n: usize,
+        /// number of distinct body symbols available to the kind
+        pub sigma: u16,
+        pub sent: Sent,
+        /// sentinel byte; body symbols are sentinel+1.. (or ACGT when `dna`)
+        pub sentinel: u8,
+        pub dna: bool,
+        pub seed: u64,
+    }
+
+    fn fib_bits(len: usize) -> Vec<bool> {
+        let (mut prev, mut cur) = (vec![false], vec![false, true]);
+        while cur.len() < len {
+            let mut next = cur.clone();
+            next.extend_from_slice(&prev);
+            prev = cur;
+            cur = next;
+        }
+        cur.truncate(len);
+        cur
+    }
+
+    /// body of `len` symbols as ranks 0..sigma
+    pub fn body_ranks(kind: Kind, len: usize, sigma: u16, seed: u64) -> Vec<u16> {
+        let sigma = sigma.max(1) as usize;
+        let mut rng = Sm64::new(seed);
+        match kind {
+            Kind::Random => (0..len).map(|_| rng.below(sigma) as u16).collect(),
+            Kind::Homo => vec![0; len],
+            Kind::Period(p) => {
+                let p = (p as usize).max(1);
+                let mut unit: Vec<u16> = (0..p).map(|_| rng.below(sigma) as u16).collect();
+                if p >= 2 && sigma >= 2 && unit[0] == unit[1] {
+                    unit[1] = (unit[0] + 1) % sigma as u16;
+                }
+                (0..len).map(|i| unit[i % p]).collect()
+            }
+            Kind::Asc => (0..len).map(|i| ((i as u128 * sigma as u128) / len.max(1) as u128) as u16).collect(),
+            Kind::Desc => (0..len).map(|i| (sigma - 1 - ((i as u128 * sigma as u128) / len.max(1) as u128) as usize) as u16).collect(),
+            Kind::Fib => {
+                let hi = if sigma >= 2 { 1 } else { 0 };
+                fib_bits(len).into_iter().map(|b| if b { hi } else { 0 }).collect()
+            }
+            Kind::Thue => {
+                let hi = if sigma >= 2 { 1 } else { 0 };
+                (0..len).map(|i| if i.count_ones() & 1 == 1 { hi } else { 0 }).collect()
+            }
+            Kind::Repeat2 => {
+                if len < 3 {
+                    return (0..len).map(|_| rng.below(sigma) as u16).collect();
+                }
+                let h = (len - 1) / 2;
+                let x: Vec<u16> = (0..h).map(|_| rng.below(sigma) as u16).collect();
+                let mut v = Vec::with_capacity(len);
+                // pad in front when len is even
+                for _ in 0..(len - 1 - 2 * h) {
+                    v.push(rng.below(sigma) as u16);
+                }
+                v.extend_from_slice(&x);
+                v.push(rng.below(sigma) as u16);
+                v.extend_from_slice(&x);
+                v
+            }
+        }
+    }
+
+    impl TextSpec {
+        pub fn interior(&self) -> usize {
+            match self.sent {
+                Sent::Single => 0,
+                Sent::Even(q) | Sent::Random(q) | Sent::Tail(q) | Sent::Head(q) => q,
+                Sent::Every(step) => {
+                    if step == 0 {
+                        0
+                    } else {
+                        (self.n - 1) / step
+                    }
+                }
+            }
+        }
+
+        /// None when the parameters are not a text of the domain (harness error)
+        pub fn build(&self) -> Option<Vec<u8>> {
+            let n = self.n;
+            if n == 0 || self.sigma == 0 {
+                return None;
+            }
+            let q = self.interior();
+            if q > n - 1 {
+                return None;
+            }
+            if let Sent::Every(step) = self.sent {
+                if step == 0 {
+                    return None;
+                }
+            }
+            let use_dna = self.dna && self.sigma <= 4 && self.sentinel == b'$';
+            if !use_dna && self.sentinel as usize + self.sigma as usize > 255 {
+                return None;
+            }
+            let map = |r: u16| -> u8 {
+                if use_dna {
+                    b"ACGT"[r as usize]
+                } else {
+                    self.sentinel + 1 + r as u8
+                }
+            };
+            // mask of interior sentinel positions among 0..n-1
+            let m = n - 1;
+            let mut mask = vec![false; m];
+            match self.sent {
+                Sent::Single => {}
+                Sent::Even(q) => {
+                    for i in 0..m {
+                        let a = ((i as u128 + 1) * q as u128 / m as u128) as usize;
+                        let b = (i as u128 * q as u128 / m as u128) as usize;
+                        mask[i] = a > b;
+                    }
+                }
+                Sent::Random(q) => {
+                    let mut rng = Sm64::new(mix(self.seed, 0x5e17));
+                    let mut chosen = 0usize;
+                    for i in 0..m {
+                        if chosen < q && rng.below(m - i) < q - chosen {
+                            mask[i] = true;
+                            chosen += 1;
+                        }
+                    }
+                }
+                Sent::Tail(q) => {
+                    for i in m - q..m {
+                        mask[i] = true;
+                    }
+                }
+                Sent::Head(q) => {
+                    for i in 0..q {
+                        mask[i] = true;
+                    }
+                }
+                Sent::Every(step) => {
+                    for i in 0..m {
+                        mask[i] = (i + 1) % step == 0;
+                    }
+                }
+            }
+            let q = mask.iter().filter(|&&x| x).count();
+            let body = body_ranks(self.kind, m - q, self.sigma, self.seed);
+            let mut t = Vec::with_capacity(n);
+            let mut j = 0usize;
+            for i in 0..m {
+                if mask[i] {
+                    t.push(self.sentinel);
+                } else {
+                    t.push(map(body[j]));
+                    j += 1;
+                }
+            }
+            t.push(self.sentinel);
+            Some(t)
+        }
+    }
+
+    // -----------------------------------------------------------------------------------
+    // polynomial prefix hashes (mod 2^61-1): O(1) substring equality, used to get the common
+    // prefix length of two suffixes in O(log n). An unequal hash proves the strings differ; an
+    // equal hash is believed. Every verdict "violation" reached through hashes is re-confirmed
+    // by a direct symbol-by-symbol comparison before it is reported, so a collision can only
+    // cause a miss, never an alarm.
+
+    const M61: u64 = (1u64 << 61) - 1;
+    const BASE: u64 = 0x1d2f_a9c3_7b51_e04d % M61;
+
+    #[inline]
+    fn mulmod(a: u64, b: u64) -> u64 {
+        let t = a as u128 * b as u128;
+        let lo = (t as u64) & M61;
+        let hi = (t >> 61) as u64;
+        let mut s = lo + hi;
+        if s >= M61 {
+            s -= M61;
+        }
+        s
+    }
+
+    pub struct PHash {
+        pre: Vec<u64>,
+        pw: Vec<u64>,
+    }
+
+    impl PHash {
+        pub fn new<I: Iterator<Item = u64>>(len: usize, syms: I) -> PHash {
+            let mut pre = Vec::with_capacity(len + 1);
+            let mut pw = Vec::with_capacity(len + 1);
+            pre.push(0u64);
+            pw.push(1u64);
+            for s in syms {
+                let last = *pre.last().unwrap();
+                let mut h = mulmod(last, BASE) + (s % (M61 - 1)) + 1;
+                if h >= M61 {
+                    h -= M61;
+                }
+                pre.push(h);
+                let lp = *pw.last().unwrap();
+                pw.push(mulmod(lp, BASE));
+            }
+            PHash { pre, pw }
+        }
+        pub fn len(&self) -> usize {
+            self.pre.len() - 1
+        }
+        /// hash of the `len` symbols starting at `a`
+        #[inline]
+        pub fn get(&self, a: usize, len: usize) -> u64 {
+            let x = self.pre[a + len];
+            let y = mulmod(self.pre[a], self.pw[len]);
+            if x >= y {
+                x - y
+            } else {
+                x + M61 - y
+            }
+        }
+        /// common prefix length of the suffixes at a and b, at most `cap` (galloping + bisection)
+        pub fn lcp(&self, a: usize, b: usize, cap: usize) -> usize {
+            if a == b {
+                return cap;
+            }
+            // invariant: first `lo` symbols equal; `hi` = smallest known length with a difference (or cap+1)
+            let mut lo = 0usize;
+            let mut step = 1usize;
+            let mut hi = cap + 1;
+            while lo + step <= cap {
+                if self.get(a, lo + step) == self.get(b, lo + step) {
+                    lo += step;
+                    step *= 2;
+                } else {
+                    hi = lo + step;
+                    break;
+                }
+            }
+            if hi == cap + 1 {
+                // gallop ran off the end: the difference (if any) is in (lo, cap]
+                if self.get(a, cap) == self.get(b, cap) {
+                    return cap;
+                }
+                hi = cap;
+            }
+            // equal up to lo, different at length hi
+            while hi - lo > 1 {
+                let mid = lo + (hi - lo) / 2;
+                if self.get(a, mid) == self.get(b, mid) {
+                    lo = mid;
+                } else {
+                    hi = mid;
+                }
+            }
+            lo
+        }
+    }
+
+    /// Integer view of a byte text in which every sentinel occurrence is its own symbol below all
+    /// others, ranked as in sa[0..#sentinels] (the order the implementation chose). Checks that
+    /// `sa` is a permutation, sa[0] = n-1 and that the sentinel block comes first.
+    pub fn int_view(text: &[u8], sa: &[usize]) -> Result<(Vec<u32>, usize), String> {
+        let n = text.len();
+        let sentinel = text[n - 1];
+        if sa.len() != n {
+            return Err(format!("suffix array has length {}, expected {}", sa.len(), n));
+        }
+        let mut seen = vec![false; n];
+        for (r, &p) in sa.iter().enumerate() {
+            if p >= n {
+                return Err(format!("sa[{}]={} is not a text position (n={})", r, p, n));
+            }
+            if seen[p] {
+                return Err(format!("position {} occurs twice (again at sa[{}]): not a permutation", p, r));
+            }
+            seen[p] = true;
+        }
+        if sa[0] != n - 1 {
+            return Err(format!("the final sentinel (position {}) must be the smallest suffix but sa[0]={}", n - 1, sa[0]));
+        }
+        let m = text.iter().filter(|&&c| c == sentinel).count();
+        let mut t: Vec<u32> = text.iter().map(|&c| m as u32 + c as u32).collect();
+        for r in 0..m {
+            let p = sa[r];
+            if text[p] != sentinel {
+                return Err(format!("{} sentinel occurrences must occupy sa[0..{}] but sa[{}]={} starts with symbol {:#04x}", m, m, r, p, text[p]));
+            }
+            t[p] = r as u32;
+        }
+        Ok((t, m))
+    }
+
+    fn direct_lcp(t: &[u32], a: usize, b: usize) -> usize {
+        let mut l = 0;
+        while a + l < t.len() && b + l < t.len() && t[a + l] == t[b + l] {
+            l += 1;
+        }
+        l
+    }
+
+    /// `sa` (already known to be a permutation of 0..n) is strictly increasing over the integer
+    /// text `t` whose last symbol is the unique minimum. Returns adj[r] = common prefix length of
+    /// suffixes sa[r-1], sa[r] (adj[0] = 0). Near-linear: O(log lcp) hash probes per pair.
+    pub fn verify_sorted(t: &[u32], sa: &[usize]) -> Result<Vec<u32>, String> {
+        let n = t.len();
+        let h = PHash::new(n, t.iter().map(|&x| x as u64));
+        let mut adj = vec![0u32; n];
+        for r in 1..n {
+            let (a, b) = (sa[r - 1], sa[r]);
+            let cap = n - a.max(b);
+            let l = h.lcp(a, b, cap);
+            let ok = l < cap && t[a + l] < t[b + l];
+            if !ok {
+                // confirm directly (exact) before believing the hashes
+                let dl = direct_lcp(t, a, b);
+                let less = a + dl < n && b + dl < n && t[a + dl] < t[b + dl];
+                if !less {
+                    return Err(format!(
+                        "suffix at sa[{}]={} is not smaller than suffix at sa[{}]={} (they share {} leading symbols; sentinel occurrences ordered as in the head of the array)",
+                        r - 1, a, r, b, dl
+                    ));
+                }
+                adj[r] = dl as u32;
+            } else {
+                adj[r] = l as u32;
+            }
+        }
+        Ok(adj)
+    }
+
+    // -----------------------------------------------------------------------------------
+    // Z-function and linear-time occurrence oracles (cross-checked against the naive scan on a
+    // truncated copy of the input inside every check that uses them)
+
+    pub fn z_function<T: PartialEq>(s: &[T]) -> Vec<u32> {
+        let n = s.len();
+        let mut z = vec![0u32; n];
+        let (mut l, mut r) = (0usize, 0usize);
+        for i in 1..n {
+            let mut k = if i < r { (z[i - l] as usize).min(r - i) } else { 0 };
+            while i + k < n && s[k] == s[i + k] {
+                k += 1;
+            }
+            z[i] = k as u32;
+            if i + k > r {
+                l = i;
+                r = i + k;
+            }
+        }
+        z
+    }
+
+    /// sorted start positions of p in text (p non-empty)
+    pub fn occurrences_linear(p: &[u8], text: &[u8]) -> Vec<usize> {
+        let m = p.len();
+        if m == 0 || m > text.len() {
+            return Vec::new();
+        }
+        let mut s: Vec<u16> = Vec::with_capacity(m + 1 + text.len());
+        s.extend(p.iter().map(|&c| c as u16));
+        s.push(256);
+        s.extend(text.iter().map(|&c| c as u16));
+        let z = z_function(&s);
+        (0..=text.len() - m).filter(|&i| z[m + 1 + i] as usize >= m).collect()
+    }
+
+    /// (l, positions): l = length of the longest suffix of p that occurs in text (0 if none),
+    /// positions = sorted start positions of that suffix
+    pub fn longest_suffix_occurrences(p: &[u8], text: &[u8]) -> (usize, Vec<usize>) {
+        let (m, n) = (p.len(), text.len());
+        let mut s: Vec<u16> = Vec::with_capacity(m + 1 + n);
+        s.extend(p.iter().rev().map(|&c| c as u16));
+        s.push(256);
+        s.extend(text.iter().rev().map(|&c| c as u16));
+        let z = z_function(&s);
+        let best = (0..n).map(|j| z[m + 1 + j]).max().unwrap_or(0) as usize;
+        if best == 0 {
+            return (0, Vec::new());
+        }
+        // reversed-text index j: the suffix of p of length `best` ends at forward position n-1-j
+        let mut pos: Vec<usize> = (0..n).filter(|&j| z[m + 1 + j] as usize == best).map(|j| n - j - best).collect();
+        pos.sort_unstable();
+        (best, pos)
+    }
+
+    // -----------------------------------------------------------------------------------
+    // suffix automaton with occurrence counts: matching statistics of a pattern in O(m),
+    // hence all supermaximal exact matches (cross-checked against the brute-force SMEM oracle on
+    // a truncated copy of the input inside the check)
+
+    pub struct Sam {
+        sigma: usize,
+        code: [u8; 256],
+        next: Vec<u32>, // state * sigma + c ; u32::MAX = none
+        link: Vec<u32>,
+        len: Vec<u32>,
+        pub cnt: Vec<u32>,
+    }
+
+    const NONE: u32 = u32::MAX;
+
+    impl Sam {
+        pub fn new(text: &[u8]) -> Sam {
+            let mut code = [255u8; 256];
+            let mut sigma = 0usize;
+            for c in 0..256usize {
+                if text.contains(&(c as u8)) {
+                    code[c] = sigma as u8;
+                    sigma += 1;
+                }
+            }
+            let cap = 2 * text.len() + 2;
+            let mut s = Sam { sigma, code, next: Vec::with_capacity(cap * sigma), link: Vec::with_capacity(cap), len: Vec::with_capacity(cap), cnt: Vec::with_capacity(cap) };
+            s.new_state(0, NONE, 0);
+            let mut last = 0u32;
+            for &ch in text {
+                let c = s.code[ch as usize] as usize;
+                let cur = s.new_state(s.len[last as usize] + 1, 0, 1);
+                let mut p = last;
+                while p != NONE && s.next[p as usize * sigma + c] == NONE {
+                    s.next[p as usize * sigma + c] = cur;
+                    p = s.link[p as usize];
+                }
+                if p == NONE {
+                    s.link[cur as usize] = 0;
+                } else {
+                    let q = s.next[p as usize * sigma + c];
+                    if s.len[p as usize] + 1 == s.len[q as usize] {
+                        s.link[cur as usize] = q;
+                    } else {
+                        let clone = s.new_state(s.len[p as usize] + 1, s.link[q as usize], 0);
+                        for x in 0..sigma {
+                            s.next[clone as usize * sigma + x] = s.next[q as usize * sigma + x];
+                        }
+                        while p != NONE && s.next[p as usize * sigma + c] == q {
+                            s.next[p as usize * sigma + c] = clone;
+                            p = s.link[p as usize];
+                        }
+                        s.link[q as usize] = clone;
+                        s.link[cur as usize] = clone;
+                    }
+                }
+                last = cur;
+            }
+            // occurrence counts: propagate along suffix links in order of decreasing len
+            let ns = s.len.len();
+            let maxlen = text.len();
+            let mut bucket = vec![0u32; maxlen + 2];
+            for &l in &s.len {
+                bucket[l as usize] += 1;
+            }
+            for i in 1..bucket.len() {
+                bucket[i] += bucket[i - 1];
+            }
+            let mut order = vec![0u32; ns];
+            for st in (0..ns).rev() {
+                let l = s.len[st] as usize;
+                bucket[l] -= 1;
+                order[bucket[l] as usize] = st as u32;
+            }
+            for &st in order.iter().rev() {
+                let l = s.link[st as usize];
+                if l != NONE {
+                    s.cnt[l as usize] += s.cnt[st as usize];
+                }
+            }
+            s
+        }
+
+        fn new_state(&mut self, len: u32, link: u32, cnt: u32) -> u32 {
+            let id = self.len.len() as u32;
+            self.len.push(len);
+            self.link.push(link);
+            self.cnt.push(cnt);
+            self.next.extend(std::iter::repeat(NONE).take(self.sigma));
+            id
+        }
+
+        /// for every end e in 1..=m: (length of the longest suffix of p[..e] that occurs in the
+        /// text, number of its occurrences); index 0 is (0,0)
+        pub fn matching_statistics(&self, p: &[u8]) -> Vec<(u32, u32)> {
+            let mut out = Vec::with_capacity(p.len() + 1);
+            out.push((0u32, 0u32));
+            let (mut st, mut l) = (0u32, 0u32);
+            for &ch in p {
+                let c = self.code[ch as usize];
+                if c == 255 {
+                    st = 0;
+                    l = 0;
+                    out.push((0, 0));
+                    continue;
+                }
+                let c = c as usize;
+                while st != 0 && self.next[st as usize * self.sigma + c] == NONE {
+                    st = self.link[st as usize];
+                    l = self.len[st as usize];
+                }
+                let nx = self.next[st as usize * self.sigma + c];
+                if nx != NONE {
+                    st = nx;
+                    l += 1;
+                }
+                // the matched string has length l with len(link(st)) < l <= len(st): the count of the
+                // state is the count of the string
+                out.push((l, if l == 0 { 0 } else { self.cnt[st as usize] }));
+            }
+            out
+        }
+
+        /// all supermaximal exact matches (start, len, occurrences), sorted by start
+        pub fn smems(&self, p: &[u8]) -> Vec<(usize, usize, usize)> {
+            let ms = self.matching_statistics(p);
+            let m = p.len();
+            let mut out = Vec::new();
+            for e in 1..=m {
+                let (l, c) = ms[e];
+                if l >= 1 && (e == m || ms[e + 1].0 <= l) {
+                    out.push((e - l as usize, l as usize, c as usize));
+                }
+            }
+            out.sort();
+            out
+        }
+    }
+
+    // -----------------------------------------------------------------------------------
+    // LadderSub: a sub-check over an ENUMERATED list of parameterised cases (every ladder value is
+    // reached by construction, independent of the seed; the seed only feeds the random fillers).
+    // Cases are dealt to the shards by estimated weight so that the shards finish together.
+
+    pub struct LadderSub<C: 'static> {
+        pub name: &'static str,
+        pub cases: fn(Tier, u64) -> Vec<C>,
+        pub weight: fn(&C) -> u64,
+        pub check: fn(&C) -> R,
+        pub shards_quick: u32,
+        pub shards_thorough: u32,
+        pub must_reach: &'static [&'static str],
+    }
+
+    fn fnv64(data: &[u8]) -> u64 {
+        let mut h: u64 = 0xcbf29ce484222325;
+        for b in data {
+            h ^= *b as u64;
+            h = h.wrapping_mul(0x100000001b3);
+        }
+        h
+    }
+
+    impl<C> LadderSub<C> {
+        /// deterministic longest-processing-time assignment: indices of the cases of `shard`
+        fn mine(&self, all: &[C], shard: u32, nshards: u32) -> Vec<usize> {
+            let mut idx: Vec<usize> = (0..all.len()).collect();
+            let w: Vec<u64> = all.iter().map(|c| (self.weight)(c).max(1)).collect();
+            idx.sort_by(|&a, &b| w[b].cmp(&w[a]).then(a.cmp(&b)));
+            let mut load = vec![0u64; nshards as usize];
+            let mut out = Vec::new();
+            for i in idx {
+                let mut best = 0usize;
+                for s in 1..nshards as usize {
+                    if load[s] < load[best] {
+                        best = s;
+                    }
+                }
+                load[best] += w[i];
+                if best as u32 == shard {
+                    out.push(i);
+                }
+            }
+            out
+        }
+    }
+
+    impl<C> SubCheck for LadderSub<C>
+    where
+        C: Serialize + DeserializeOwned + Debug + 'static,
+    {
+        fn name(&self) -> &'static str {
+            self.name
+        }
+        fn planned(&self, tier: Tier) -> u64 {
+            (self.cases)(tier, 0).len() as u64
+        }
+        fn shards(&self, tier: Tier) -> u32 {
+            match tier {
+                Tier::Quick => self.shards_quick.max(1),
+                Tier::Thorough => self.shards_thorough.max(1),
+            }
+        }
+        fn must_reach(&self) -> &'static [&'static str] {
+            self.must_reach
+        }
+        fn exec(&self, p: &RunParams) -> SubStats {
+            let t0 = Instant::now();
+            let all = (self.cases)(p.tier, p.seed);
+            let mine = self.mine(&all, p.shard, p.nshards);
+            let mut stats = SubStats { property: p.property.clone(), subcheck: self.name.to_string(), shard: p.shard, ..Default::default() };
+            let mut hashes: HashSet<u64> = HashSet::new();
+            let mut seen_classes: HashSet<&'static str> = HashSet::new();
+            // diagnostic only: VERIF_LADDER_TIMING=1 prints the wall time of every case to stderr
+            let timing = std::env::var("VERIF_LADDER_TIMING").is_ok();
+            for i in mine {
+                let case = &all[i];
+                let js = serde_json::to_string(case).expect("case serialises");
+                *WATCH.current.lock().unwrap() = Some((Instant::now(), js.clone()));
+                let tc = Instant::now();
+                let r = guarded(self.check, case);
+                *WATCH.current.lock().unwrap() = None;
+                if timing {
+                    eprintln!("TIMING {:.3} {}", tc.elapsed().as_secs_f64(), js);
+                }
+                match r {
+                    Ok(pass) => {
+                        stats.cases += 1;
+                        let mut want_sample = false;
+                        for c in &pass.classes {
+                            *stats.classes.entry((*c).to_string()).or_insert(0) += 1;
+                            if seen_classes.insert(*c) && stats.samples.len() < 6 {
+                                want_sample = true;
+                            }
+                        }
+                        if pass.nontrivial && hashes.insert(fnv64(js.as_bytes())) {
+                            stats.nontrivial += 1;
+                        }
+                        if want_sample {
+                            let v: Value = serde_json::from_str(&js).unwrap_or(Value::Null);
+                            stats.samples.push(json!({"subcheck": self.name, "nontrivial": pass.nontrivial, "classes": pass.classes, "case": v}));
+                        }
+                    }
+                    Err(Stop::Skip(sig)) => {
+                        *stats.excluded_known.entry(sig.to_string()).or_insert(0) += 1;
+                    }
+                    Err(Stop::Fail(msg)) => {
+                        stats.failure = Some(Failure { message: msg, case: serde_json::to_value(case).unwrap(), replay_path: None });
+                        break;
+                    }
+                }
+            }
+            stats.nontrivial_hashes = hashes.into_iter().collect();
+            stats.nontrivial_hashes.sort_unstable();
+            stats.wall_s = t0.elapsed().as_secs_f64();
+            stats
+        }
+        fn replay(&self, case: &Value) -> Result<R, String> {
+            let c: C = serde_json::from_value(case.clone()).map_err(|e| format!("cannot decode case: {}", e))?;
+            Ok(guarded(self.check, &c))
+        }
+    }
+}
+
+
+// ======================================================================================
+// merged block from the c071718 work
+// ======================================================================================
+// Helpers shared by the large-scale (`CNN/large-*`) sub-checks.
+//
+// ======================================================================================
+// Block of C07 / C17 / C18 (module `c071718`): deterministic PRNG, the size ladder, class
+// labels for ladder values, query-position sampling, watchdog publication for enumerated
+// sub-checks.
+// ======================================================================================
+
+pub mod c071718 {
+    use crate::engine::WATCH;
+    use std::collections::HashMap;
+    use std::sync::Mutex;
+    use std::time::Instant;
+
+    /// splitmix64: the only source of pseudo-randomness inside the large-scale checks (cases store
+    /// the seed; the data is expanded deterministically from it)
+    #[derive(Clone, Debug)]
+    pub struct Rng(pub u64);
+
+    impl Rng {
+        pub fn new(seed: u64) -> Rng {
+            Rng(seed ^ 0x5851_f42d_4c95_7f2d)
+        }
+        #[allow(clippy::should_implement_trait)]
+        pub fn next(&mut self) -> u64 {
+            self.0 = self.0.wrapping_add(0x9e37_79b9_7f4a_7c15);
+            let mut z = self.0;
+            z = (z ^ (z >> 30)).wrapping_mul(0xbf58_476d_1ce4_e5b9);
+            z = (z ^ (z >> 27)).wrapping_mul(0x94d0_49bb_1331_11eb);
+            z ^ (z >> 31)
+        }
+        /// uniform in 0..n (n >= 1)
+        pub fn below(&mut self, n: u64) -> u64 {
+            ((self.next() as u128 * n as u128) >> 64) as u64
+        }
+        /// true with probability num/den
+        pub fn chance(&mut self, num: u64, den: u64) -> bool {
+            self.below(den) < num
+        }
+        /// Fisher-Yates
+        pub fn shuffle<T>(&mut self, v: &mut [T]) {
+            for i in (1..v.len()).rev() {
+                let j = self.below(i as u64 + 1) as usize;
+                v.swap(i, j);
+            }
+        }
+    }
+
+    /// the thresholds every independent size parameter is pushed across
+    pub const LADDER: [u64; 34] = [
+        255, 256, 257, 511, 512, 513, 1023, 1024, 1025, 4095, 4096, 4097, 8191, 8192, 8193, 16383, 16384, 16385, 32767, 32768, 32769, 65535, 65536, 65537,
+        70001, 131071, 131072, 131073, 524287, 524288, 524289, 1048575, 1048576, 1048577,
+    ];
+
+    pub fn ladder_upto(max: u64) -> Vec<u64> {
+        LADDER.iter().copied().filter(|&v| v <= max).collect()
+    }
+
+    /// 2^k-1, 2^k, 2^k+1 for k in lo..=hi
+    pub fn pow2_triples(lo: u32, hi: u32) -> Vec<u64> {
+        (lo..=hi).flat_map(|k| [(1u64 << k) - 1, 1u64 << k, (1u64 << k) + 1]).collect()
+    }
+
+    pub fn is_ladder(v: u64) -> bool {
+        LADDER.contains(&v)
+    }
+
+    /// class labels must be `&'static str`; labels that carry a number are interned
+    pub fn intern(s: String) -> &'static str {
+        static TABLE: Mutex<Option<HashMap<String, &'static str>>> = Mutex::new(None);
+        let mut g = TABLE.lock().unwrap();
+        let t = g.get_or_insert_with(HashMap::new);
+        if let Some(x) = t.get(&s) {
+            return x;
+        }
+        let leaked: &'static str = Box::leak(s.clone().into_boxed_str());
+        t.insert(s, leaked);
+        leaked
+    }
+
+    /// "<what> = <v>"
+    pub fn lab(what: &str, v: u64) -> &'static str {
+        intern(format!("{} = {}", what, v))
+    }
+
+    /// the `must_reach` list "<what> = v" for every v
+    pub fn labels(what: &str, values: &[u64]) -> Vec<&'static str> {
+        values.iter().map(|&v| lab(what, v)).collect()
+    }
+
+    pub fn leak_list(v: Vec<&'static str>) -> &'static [&'static str] {
+        Box::leak(v.into_boxed_slice())
+    }
+
+    /// Sorted, de-duplicated sample of 0..n: first/last, every ladder value +-2, every `extra` value +-2
+    /// (block boundaries), and `random` pseudo-random positions.
+    pub fn sample_positions(n: u64, extra: &[u64], rng: &mut Rng, random: usize) -> Vec<u64> {
+        let mut v: Vec<u64> = Vec::new();
+        if n == 0 {
+            return v;
+        }
+        let around = |x: u64, v: &mut Vec<u64>| {
+            for d in -2i64..=2 {
+                let y = x as i128 + d as i128;
+                if y >= 0 && (y as u64) < n {
+                    v.push(y as u64);
+                }
+            }
+        };
+        around(0, &mut v);
+        around(n - 1, &mut v);
+        for &l in LADDER.iter() {
+            around(l, &mut v);
+        }
+        for &e in extra {
+            around(e, &mut v);
+        }
+        for _ in 0..random {
+            v.push(rng.below(n));
+        }
+        v.sort_unstable();
+        v.dedup();
+        v
+    }
+
+    /// Enumerated sub-checks are not published to the in-process watchdog by the engine; the large-scale
+    /// checks publish themselves so that a library loop that never ends above a size threshold is dumped
+    /// and confirmed like any other hang instead of blocking the worker.
+    pub fn watched<T>(case_json: String, f: impl FnOnce() -> T) -> T {
+        struct Clear;
+        impl Drop for Clear {
+            fn drop(&mut self) {
+                // also runs when the code under test panics (the engine catches the panic further up)
+                if let Ok(mut g) = WATCH.current.lock() {
+                    *g = None;
+                }
+            }
+        }
+        *WATCH.current.lock().unwrap() = Some((Instant::now(), case_json));
+        let _clear = Clear;
+        f()
+    }
+}
+
+
+// ======================================================================================
+// merged block from the c141516 work
+// ======================================================================================
+// Helpers of the large-scale (`CNN/large...`) sub-checks.
+
+// ===========================================================================
+// ==== block of C14 / C15 / C16 (module `c141516`, macro `rung_label_c141516`)
+// ===========================================================================
+
+/// `rung_label_c141516!("S", v)` -> `Option<&'static str>`: the class label "S in 255..257" .. of the
+/// threshold ladder the value lies on (2^k - 1 ..= 2^k + 1 for k = 8, 9, 10, 11, 12 .. 23, and ~70 000).
+#[macro_export]
+macro_rules! rung_label_c141516 {
+    ($what:literal, $v:expr) => {{
+        let v: u64 = $v as u64;
+        match v {
+            255..=257 => Some(concat!($what, " in 255..257")),
+            511..=513 => Some(concat!($what, " in 511..513")),
+            1023..=1025 => Some(concat!($what, " in 1023..1025")),
+            2047..=2049 => Some(concat!($what, " in 2047..2049")),
+            4095..=4097 => Some(concat!($what, " in 4095..4097")),
+            8191..=8193 => Some(concat!($what, " in 8191..8193")),
+            16383..=16385 => Some(concat!($what, " in 16383..16385")),
+            32767..=32769 => Some(concat!($what, " in 32767..32769")),
+            65535..=65537 => Some(concat!($what, " in 65535..65537")),
+            69_000..=71_000 => Some(concat!($what, " ~70000")),
+            131071..=131073 => Some(concat!($what, " in 131071..131073")),
+            262143..=262145 => Some(concat!($what, " in 262143..262145")),
+            524287..=524289 => Some(concat!($what, " in 2^19-1..2^19+1")),
+            1048575..=1048577 => Some(concat!($what, " in 2^20-1..2^20+1")),
+            2097151..=2097153 => Some(concat!($what, " in 2^21-1..2^21+1")),
+            4194303..=4194305 => Some(concat!($what, " in 2^22-1..2^22+1")),
+            8388607..=8388609 => Some(concat!($what, " in 2^23-1..2^23+1")),
+            _ => None,
+        }
+    }};
+}
+
+pub mod c141516 {
+    /// splitmix64: the only source of pseudo-random data inside the large-scale checks. A case stores
+    /// `{sizes, kind, seed}`; the check expands it deterministically with this generator (neither the
+    /// library under test nor std randomness is involved).
+    #[derive(Clone, Debug)]
+    pub struct Sm64(pub u64);
+
+    impl Sm64 {
+        pub fn new(seed: u64) -> Sm64 {
+            Sm64(seed)
+        }
+        /// independent stream `k` of the same seed
+        pub fn stream(seed: u64, k: u64) -> Sm64 {
+            let mut a = Sm64(seed ^ k.wrapping_mul(0xd6e8feb86659fd93));
+            let s = a.next();
+            Sm64(s)
+        }
+        #[inline]
+        pub fn next(&mut self) -> u64 {
+            self.0 = self.0.wrapping_add(0x9e3779b97f4a7c15);
+            let mut z = self.0;
+            z = (z ^ (z >> 30)).wrapping_mul(0xbf58476d1ce4e5b9);
+            z = (z ^ (z >> 27)).wrapping_mul(0x94d049bb133111eb);
+            z ^ (z >> 31)
+        }
+        /// uniform in 0..n (n >= 1), multiply-shift
+        #[inline]
+        pub fn below(&mut self, n: u64) -> u64 {
+            (((self.next() >> 32) as u128 * n as u128) >> 32) as u64
+        }
+        /// uniform in [0, 1)
+        #[inline]
+        pub fn unit(&mut self) -> f64 {
+            (self.next() >> 11) as f64 / (1u64 << 53) as f64
+        }
+    }
+
+    /// Publishes the case to the engine's in-process watchdog for the duration of a check, unless the
+    /// engine has already published one (sub-checks registered with `watch: true`, replays). Bounded-
+    /// exhaustive ladder sub-checks are not published by the engine; with this guard a case on which the
+    /// code under test does not terminate or allocates without bound is dumped, re-run twice by the parent
+    /// and reported as a violation instead of ending the run as inconclusive.
+    pub struct Published(bool);
+
+    pub fn publish<C: serde::Serialize>(c: &C) -> Published {
+        let mut cur = crate::engine::WATCH.current.lock().unwrap();
+        if cur.is_none() {
+            *cur = Some((std::time::Instant::now(), serde_json::to_string(c).unwrap_or_else(|_| "null".to_string())));
+            Published(true)
+        } else {
+            Published(false)
+        }
+    }
+
+    impl Drop for Published {
+        fn drop(&mut self) {
+            if self.0 {
+                if let Ok(mut cur) = crate::engine::WATCH.current.lock() {
+                    *cur = None;
+                }
+            }
+        }
+    }
+
+    /// centres of the threshold ladder (2^k and 70 000) up to `max`; the rung of a centre c is c-1, c, c+1
+    pub fn centres(max: u64) -> Vec<u64> {
+        [256u64, 512, 1024, 4096, 8192, 16384, 32768, 65536, 70_000, 131_072, 1 << 19, 1 << 20]
+            .iter()
+            .cloned()
+            .filter(|&c| c + 1 <= max)
+            .collect()
+    }
+
+    /// the three (for 70 000: one) values of a rung
+    pub fn rung_values(centre: u64) -> Vec<u64> {
+        if centre == 70_000 {
+            vec![70_000]
+        } else {
+            vec![centre - 1, centre, centre + 1]
+        }
+    }
+
+    /// all ladder values up to `max`
+    pub fn ladder(max: u64) -> Vec<u64> {
+        centres(max).into_iter().flat_map(rung_values).collect()
+    }
+}
+
